@@ -625,6 +625,115 @@ def depthToSpace (x : Tensor) (bs : Int) (mode : String) : R Tensor := do
     pure ⟨[n, c', h * b, w * b], t.data⟩
   else fail
 
+/-! ## Pooling (MaxPool / AveragePool / Global*Pool) on integer-valued data
+
+Output extent per the specification: `floor` or (`ceil_mode`) `ceil` of
+`(in + pad_begin + pad_end - ((k-1)*dilation + 1)) / stride + 1`; with `ceil_mode` "sliding windows
+that would start in the right padded region are ignored". `auto_pad` SAME_UPPER / SAME_LOWER:
+`ceil(in / stride)` with the padding split so that the extra unit goes to the end / the beginning;
+VALID: no padding. -/
+
+/-- `(out, padBegin, padEnd)` for one spatial axis. -/
+def poolAxis (inSize k stride dil padB padE : Nat) (ceil : Bool) (autoPad : String) : R (Nat × Nat × Nat) := do
+  guardR (k ≥ 1 && stride ≥ 1 && dil ≥ 1)
+  let eff := (k - 1) * dil + 1
+  if autoPad == "SAME_UPPER" || autoPad == "SAME_LOWER" then
+    if inSize == 0 then ambig else
+    let out := (inSize + stride - 1) / stride
+    let total := ((out - 1) * stride + eff) - inSize
+    let small := total / 2
+    let big := total - small
+    if autoPad == "SAME_UPPER" then pure (out, small, big) else pure (out, big, small)
+  else
+    let (pb, pe) := if autoPad == "VALID" then (0, 0) else (padB, padE)
+    guardR (autoPad == "VALID" || autoPad == "NOTSET")
+    -- the deprecated `auto_pad=VALID` formula ignores `ceil_mode`; implementations differ
+    if autoPad == "VALID" && ceil then ambig else
+    let padded := inSize + pb + pe
+    -- kernel larger than the padded input, or padding that can hold a whole window: not defined
+    if padded < eff || pb ≥ eff || pe ≥ eff then ambig else
+    let w := padded - eff
+    let out0 := if ceil then (w + stride - 1) / stride + 1 else w / stride + 1
+    let out := if ceil && (out0 - 1) * stride ≥ inSize + pb then out0 - 1 else out0
+    pure (out, pb, pe)
+
+/-- One pooling window: for every kernel offset, the input element (`some v`), `none` if the
+position is padding; the flag tells whether the position lies inside the explicitly padded extent. -/
+def poolWindow (x : Tensor) (nc o kernel strides dils padB padE : List Nat) : List (Option Int × Bool) :=
+  let sp := x.shape.drop 2
+  let n := kernel.length
+  (allIdx kernel).map (fun kk =>
+    let pos : List Int := (List.range n).map (fun a =>
+      ((getN o a * getN strides a + getN kk a * getN dils a : Nat) : Int) - (getN padB a : Int))
+    let inside := (List.range n).all (fun a => 0 ≤ getI pos a && getI pos a < (getN sp a : Int))
+    let inPadded := (List.range n).all (fun a => getI pos a < ((getN sp a + getN padE a : Nat) : Int))
+    (if inside then some (x.get (nc ++ pos.map Int.toNat)) else none, inPadded))
+
+/-- `mode` = "max" | "avg". For "avg" the result is `sum * scale / count` which must be an exact
+integer (the harness chooses `scale` as a common multiple of all possible counts and multiplies
+rten's f32 average by it). -/
+def pool (mode : String) (x : Tensor) (kernel strides dils pads : List Nat) (ceil : Bool) (autoPad : String)
+    (countIncludePad : Bool) (scale : Int) : R Tensor := do
+  let n := kernel.length
+  guardR (x.rank == n + 2 && n ≥ 1)
+  guardR (strides.length == n && dils.length == n && pads.length == 2 * n)
+  let sp := x.shape.drop 2
+  let geo ← (List.range n).mapM (fun a =>
+    poolAxis (getN sp a) (getN kernel a) (getN strides a) (getN dils a) (getN pads a) (getN pads (n + a)) ceil autoPad)
+  let outSp := geo.map (·.1)
+  let padB := geo.map (·.2.1)
+  let padE := geo.map (·.2.2)
+  let outShape := x.shape.take 2 ++ outSp
+  let cells := (allIdx outShape).map (fun idx =>
+    let win := poolWindow x (idx.take 2) (idx.drop 2) kernel strides dils padB padE
+    let vals := win.filterMap (·.1)
+    if mode == "max" then maxL vals
+    else
+      let cnt : Int := if countIncludePad then ((win.filter (·.2)).length : Int) else (vals.length : Int)
+      -- a window hanging over the padded extent with count_include_pad: divisor not clearly defined
+      if countIncludePad && win.any (fun p => !p.2) then none
+      else if cnt == 0 then none
+      else if (sumI vals * scale) % cnt != 0 then none
+      else some (sumI vals * scale / cnt))
+  if cells.any Option.isNone then ambig
+  else pure ⟨outShape, cells.map (fun v => v.getD 0)⟩
+
+/-! ## Conv over integers -/
+
+/-- `Conv` (any number of spatial axes, groups, strides, dilations, pads / auto_pad, optional bias). -/
+def conv (x w : Tensor) (bias : Option Tensor) (strides dils pads : List Nat) (group : Nat) (autoPad : String) :
+    R Tensor := do
+  let n := x.rank - 2
+  guardR (x.rank ≥ 3 && w.rank == x.rank && group ≥ 1)
+  guardR (strides.length == n && dils.length == n && pads.length == 2 * n)
+  let c := getN x.shape 1
+  let m := getN w.shape 0
+  let cg := getN w.shape 1
+  guardR (c == cg * group && m % group == 0)
+  match bias with
+  | some b => guardR (b.shape == [m])
+  | none => pure ()
+  let sp := x.shape.drop 2
+  let kernel := w.shape.drop 2
+  let geo ← (List.range n).mapM (fun a =>
+    poolAxis (getN sp a) (getN kernel a) (getN strides a) (getN dils a) (getN pads a) (getN pads (n + a)) false autoPad)
+  let outSp := geo.map (·.1)
+  let padB := geo.map (·.2.1)
+  let mg := m / group
+  pure (build ([getN x.shape 0, m] ++ outSp) (fun idx =>
+    let b := getN idx 0
+    let oc := getN idx 1
+    let g := oc / mg
+    let o := idx.drop 2
+    let acc := sumI ((List.range cg).map (fun ci =>
+      sumI ((allIdx kernel).map (fun kk =>
+        let pos : List Int := (List.range n).map (fun a =>
+          ((getN o a * getN strides a + getN kk a * getN dils a : Nat) : Int) - (getN padB a : Int))
+        if (List.range n).all (fun a => 0 ≤ getI pos a && getI pos a < (getN sp a : Int)) then
+          x.get ([b, g * cg + ci] ++ pos.map Int.toNat) * w.get ([oc, ci] ++ kk)
+        else 0))))
+    acc + (match bias with | some bt => getI bt.data oc | none => 0)))
+
 /-! ## Shape / Size / NonZero -/
 
 def shapeOp (x : Tensor) (start : Int) (stop : Option Int) : Tensor :=
